@@ -443,3 +443,29 @@ pub proof fn lemma_j_history(w0: World, steps: Seq<JOp>)
         }
     }
 }
+
+/// no later token operation, delegation or ledger advance changes an answer about a past ledger
+pub proof fn lemma_j_past_stable(w0: World, steps: Seq<JOp>, k: int)
+    requires j_genesis(w0), w0.ledger_ok(), j_valid(w0, steps), 0 <= k <= steps.len(),
+    ensures
+        j_run(w0, steps.take(k)).ledger_seq <= j_run(w0, steps).ledger_seq,
+        //@@ C13:history.fv_past_never_changes
+        forall|t: CheckpointType, q: u32| q < j_run(w0, steps.take(k)).ledger_seq ==>
+            #[trigger] past_value(j_run(w0, steps), t, q) == past_value(j_run(w0, steps.take(k)), t, q),
+    decreases steps.len()
+{
+    if k == steps.len() { assert(steps.take(k) =~= steps); }
+    else {
+        let pre = steps.drop_last();
+        let wp = j_run(w0, pre);
+        let wk = j_run(w0, steps.take(k));
+        assert(pre.take(k) =~= steps.take(k));
+        lemma_j_past_stable(w0, pre, k);
+        lemma_j_history(w0, pre);
+        lemma_jstep(wp, steps.last());
+        assert forall|t: CheckpointType, q: u32| q < wk.ledger_seq implies
+            #[trigger] past_value(j_run(w0, steps), t, q) == past_value(wk, t, q) by {
+            assert(past_value(wp, t, q) == past_value(wk, t, q));
+        }
+    }
+}
